@@ -37,9 +37,17 @@ FLOORS = {'quick': {'states': 2000, 'transitions': 20000, 'outcomes': 10}, 'thor
 CLASSES = [0xEF, 0xBB, 0xBF, 0xFF, 0xFE, 0x00, ord('@'), ord('c'), ord('h'), ord('a'), ord('x')]
 ENCODINGS = ['utf-8', 'utf-8-sig', 'utf-16', 'utf-16-le', 'utf-16-be', 'utf-32', 'utf-32-le', 'utf-32-be',
              'latin-1', 'cp1252', 'ascii', 'iso-8859-15', 'koi8-r', 'shift_jis']
+# the same codecs under other spellings of their names (codec names are case-insensitive, '_' == '-')
+ALIASES = {'UTF-8-SIG': 'utf-8-sig', 'utf_8_sig': 'utf-8-sig', 'UTF8': 'utf-8', 'UTF_16': 'utf-16', 'Utf-16-LE': 'utf-16-le', 'Latin-1': 'latin-1', 'ISO-8859-1': 'latin-1'}
+ENCODINGS += list(ALIASES)
 BOM_ENC = {'utf-8-sig', 'utf-16', 'utf-32'}
 ASCII_COMPAT = {'utf-8', 'utf-8-sig', 'latin-1', 'cp1252', 'ascii', 'iso-8859-15', 'koi8-r', 'shift_jis'}
 WIDE_NOBOM = {'utf-16-le', 'utf-16-be', 'utf-32-le', 'utf-32-be'}
+
+
+def _c(enc):
+    return ALIASES.get(enc, enc)
+
 
 TEXTS_Q = ['', 'a', 'é€\U0001d11e', '@charset "E";a', '@charset "E"', "@charset 'E';", 'x@charset "E";',  '@charset "E";aé', '@media x{}', '@charset "E', "@charset 'E';a{}"]
 TEXTS_M = TEXTS_Q + ['@charset "E";é€\U0001d11e{a:"é"}', '@c', '@import "x";', 'a\ufeffb', '@charset "E";\n@charset "x";', 'a{b:c}' * 3]
@@ -192,7 +200,7 @@ def _modes(text, enc, tier):
     """(given encoding | None, force) decode modes that the statement covers for these bytes"""
     modes = [(enc, True), (enc, False)]
     has_rule = ref.text_charset(text) is not None
-    if enc in BOM_ENC or (has_rule and (enc in ASCII_COMPAT or enc in WIDE_NOBOM)) or enc == 'utf-8':
+    if _c(enc) in BOM_ENC or (has_rule and (_c(enc) in ASCII_COMPAT or _c(enc) in WIDE_NOBOM)) or _c(enc) == 'utf-8':
         modes.append((None, True))
     return modes
 
@@ -207,7 +215,7 @@ def _roundtrip(res, ti, tier):
         if not representable(text, enc):
             continue
         for how in ('given', 'from-rule'):
-            if how == 'from-rule' and ref.text_charset(text) is None and enc != 'utf-8':
+            if how == 'from-rule' and ref.text_charset(text) is None and _c(enc) != 'utf-8':
                 continue
             case = {'kind': 'roundtrip', 'text': text, 'encoding': enc, 'encode': how}
             res.evaluations += 1
@@ -226,6 +234,11 @@ def _roundtrip(res, ti, tier):
                 res.evaluations += 1
                 res.clauses['C07.roundtrip'] += 1
                 want = ref.fix(text, enc)
+                if enc in ALIASES:
+                    # where the detector decides, the rule carries the detector's spelling of the name, not the caller's
+                    want = ref.decode(exp, given, force)
+                    if ref.norm(ref.text_charset(want) or '') != ref.norm(ref.text_charset(ref.fix(text, enc)) or ''):
+                        res.error(f'reference one-shot decoder and text rewrite disagree beyond spelling: {text!r} {enc}')
                 try:
                     got = cc.decode(data, encoding=given, force=force)[0] if (given or not force) else codecs.decode(data, 'css')
                 except Exception as e:
@@ -339,7 +352,7 @@ def _chunks_dec(res, arg, tier):
     if not representable(text, enc):
         return
     data = ref.encode(text, enc)
-    if given is None and not (enc in BOM_ENC or enc == 'utf-8' or (ref.text_charset(text) is not None and (enc in ASCII_COMPAT or enc in WIDE_NOBOM))):
+    if given is None and not (_c(enc) in BOM_ENC or _c(enc) == 'utf-8' or (ref.text_charset(text) is not None and (_c(enc) in ASCII_COMPAT or _c(enc) in WIDE_NOBOM))):
         return
     try:
         want = ref.decode(data, given, force)
@@ -369,7 +382,7 @@ def _chunks_dec_raw(res, arg, tier):
     name, enc, given, force = arg
     if ref.norm(name) == ref.norm(enc):
         return
-    if (given is None or not force) and enc in ASCII_COMPAT:
+    if (given is None or not force) and _c(enc) in ASCII_COMPAT:
         return  # auto-detection would follow the (wrong) name: decoding garbage is nobody's property
     text = '@charset "%s";a\u00e9{}' % name
     if not representable(text, enc):
@@ -405,7 +418,7 @@ def _chunks_enc(res, arg, tier):
     text = _concrete(_texts(tier)[ti], enc)
     if not representable(text, enc):
         return
-    if not given and ref.text_charset(text) is None and enc != 'utf-8':
+    if not given and ref.text_charset(text) is None and _c(enc) != 'utf-8':
         return
     want = ref.encode(text, enc if given else None)
     case = {'kind': 'chunks-enc', 'text': text, 'encoding': enc, 'mode': 'given' if given else 'from-rule'}
@@ -432,7 +445,7 @@ def _stream_read(res, arg, tier):
     if not representable(text, enc):
         return
     data = ref.encode(text, enc)
-    if not given and not (enc in BOM_ENC or enc == 'utf-8' or (ref.text_charset(text) is not None and (enc in ASCII_COMPAT or enc in WIDE_NOBOM))):
+    if not given and not (_c(enc) in BOM_ENC or _c(enc) == 'utf-8' or (ref.text_charset(text) is not None and (_c(enc) in ASCII_COMPAT or _c(enc) in WIDE_NOBOM))):
         return
     try:
         want = ref.decode(data, enc if given else None)
@@ -486,7 +499,7 @@ def _stream_write(res, arg, tier):
     text = _concrete(_texts(tier)[ti], enc)
     if not representable(text, enc):
         return
-    if not given and ref.text_charset(text) is None and enc != 'utf-8':
+    if not given and ref.text_charset(text) is None and _c(enc) != 'utf-8':
         return
     want = ref.encode(text, enc if given else None)
     case = {'kind': 'stream-write', 'text': text, 'encoding': enc, 'mode': 'given' if given else 'from-rule'}
